@@ -11,7 +11,7 @@ THEOREMS = ("C25_mutual_exclusion / C25_refs_count_and_locks_iff / C25_no_state_
 # key assignments up to renaming of keys (restricted growth strings); n = 4 restricted to <= 3 keys
 CONFIGS_QUICK = [[0], [0, 0], [0, 1], [0, 0, 0], [0, 0, 1], [0, 1, 2]]
 CONFIGS_THOROUGH = [[0, 1, 0], [0, 1, 1],
-                    [0, 0, 0, 0], [0, 0, 0, 1], [0, 0, 1, 1], [0, 1, 0, 1], [0, 0, 1, 2], [0, 1, 2, 0]]
+                    [0, 0, 0, 0], [0, 0, 0, 1], [0, 1, 0, 1], [0, 0, 1, 2]]
 
 
 def pretty(sched):
@@ -36,7 +36,7 @@ def run(ctx):
 
     # ---- (b) random forced schedules on the real KeyedLock ----
     stats_total = {}
-    n_forced = ctx.n(220, 3000)
+    n_forced = ctx.n(220, 2000)
     maxn = 0
     for i in range(n_forced):
         keys = K.gen_keys(rng)
@@ -52,7 +52,7 @@ def run(ctx):
         if i < 3:
             ctx.sample(dict(mode="forced", keys=keys, schedule=pretty(sched)))
     # ---- (c) natural runs ----
-    n_nat = ctx.n(80, 1200)
+    n_nat = ctx.n(80, 800)
     nat_steps = 0
     for i in range(n_nat):
         keys = K.gen_keys(rng)
@@ -66,7 +66,7 @@ def run(ctx):
         if i < 2:
             ctx.sample(dict(mode="natural", keys=keys, steps=pretty(log)))
     # ---- trusted primitive: plain asyncio.Lock ----
-    n_plain = ctx.n(120, 1500)
+    n_plain = ctx.n(120, 1000)
     first_plain = len(exprs)
     for i in range(n_plain):
         keys = K.gen_keys(rng)
